@@ -17,7 +17,7 @@ OUTCOMES = ["pass", "fail", "raise", "pending", "undefined", "skip", "interrupt"
 PHRASE = {
     "pass": "passes", "fail": "fails", "raise": "raises", "pending": "pends",
     "undefined": "lacks", "skip": "skips", "interrupt": "interrupts",
-    "convert": "misconverts 12x",
+    "convert": "misconverts 12x", "act": "acts",
 }
 STEP_TYPES = ("given", "when", "then")
 KW_TYPE = {"Given": "given", "When": "when", "Then": "then"}
@@ -39,9 +39,12 @@ def step_text(step, row=None):
     return text
 
 
-def step_outcome(step, row=None):
+def step_outcome(step, row=None, run_index=0):
     """Outcome of a step for a given examples row (dict col -> cell)."""
     o = step["o"]
+    if o == "act":
+        acts = step["acts"]
+        return acts[run_index % len(acts)]
     if o.startswith("<"):
         phrase = row[o[1:-1]]
         for k, v in PHRASE.items():
